@@ -35,38 +35,42 @@ for m in "$V"/seeded/*/meta.json; do
     list="$list $(dirname "$m")/patch.diff"
   fi
 done
-for p in $list; do
-  [ -f "$p" ] || continue
-  if ! patch -p1 -s -f -d "$scratch/repo" --dry-run < "$p" >/dev/null 2>&1; then
-    skipped=$((skipped+1)); continue
-  fi
-  patch -p1 -s -f -d "$scratch/repo" < "$p" >/dev/null 2>&1
-  total=$((total+1))
-  if bin/gunyucheck -property "$id" -tier quick -verif "$scratch/verif" -repo "$scratch/repo" 2>/dev/null | grep -q "^VIOLATION property=$id"; then
-    fired=$((fired+1))
-  else
-    missed="$missed $(basename "$(dirname "$p")")/$(basename "$p")"
-  fi
-  patch -p1 -s -f -R -d "$scratch/repo" < "$p" >/dev/null 2>&1
-  find "$scratch/repo" -name '*.orig' -o -name '*.rej' | xargs rm -f 2>/dev/null
-done
+# the controls are independent of each other: they run on WORKERS scratch copies in parallel
+WORKERS=${VERIF_WORKERS:-6}
+runctl() { # runctl <result file> <patches...>
+  res="$1"; shift
+  : > "$res"
+  w=0
+  for k in $(seq 1 $WORKERS); do eval "set_$k=''"; done
+  for p in "$@"; do
+    [ -f "$p" ] || continue
+    w=$(( w % WORKERS + 1 ))
+    eval "set_$w=\"\$set_$w $p\""
+  done
+  for k in $(seq 1 $WORKERS); do
+    eval "ps=\$set_$k"
+    [ -n "$ps" ] || continue
+    if [ ! -d "$scratch/w$k/repo" ]; then
+      mkdir -p "$scratch/w$k/verif"
+      rsync -a "$scratch/repo/" "$scratch/w$k/repo/"
+      cp "$V/known_findings.json" "$scratch/w$k/verif/" 2>/dev/null
+    fi
+    "$V/tools/ctl_worker.sh" "$id" "$scratch/w$k" "$res" $ps &
+  done
+  wait
+}
+runctl "$scratch/pos.txt" $list
+total=$(grep -c ' alarm$\| silent$' "$scratch/pos.txt")
+fired=$(grep -c ' alarm$' "$scratch/pos.txt")
+skipped=$(grep -c ' skip$' "$scratch/pos.txt")
+missed=$(grep ' silent$' "$scratch/pos.txt" | while read p _; do printf ' %s/%s' "$(basename "$(dirname "$p")")" "$(basename "$p")"; done)
 echo "positive controls: $fired of $total recorded breaking changes reported ($skipped not applicable to this tree)${missed:+; not reported:$missed}"
 
 # ---- neutral controls (report only): behaviour-preserving rewrites of the scratch copy must stay silent
-ntotal=0; nsilent=0; nalarm=""
-for np in "$V"/selftest/neutral/*.diff; do
-  [ -f "$np" ] || continue
-  patch -p1 -s -f -d "$scratch/repo" --dry-run < "$np" >/dev/null 2>&1 || continue
-  patch -p1 -s -f -d "$scratch/repo" < "$np" >/dev/null 2>&1
-  ntotal=$((ntotal+1))
-  if bin/gunyucheck -property "$id" -tier quick -verif "$scratch/verif" -repo "$scratch/repo" 2>/dev/null | grep -q "^VIOLATION property=$id"; then
-    nalarm="$nalarm $(basename "$np")"
-  else
-    nsilent=$((nsilent+1))
-  fi
-  patch -p1 -s -f -R -d "$scratch/repo" < "$np" >/dev/null 2>&1
-  find "$scratch/repo" -name '*.orig' -o -name '*.rej' | xargs rm -f 2>/dev/null
-done
+runctl "$scratch/neu.txt" "$V"/selftest/neutral/*.diff
+ntotal=$(grep -c ' alarm$\| silent$' "$scratch/neu.txt")
+nsilent=$(grep -c ' silent$' "$scratch/neu.txt")
+nalarm=$(grep ' alarm$' "$scratch/neu.txt" | while read p _; do printf ' %s' "$(basename "$p")"; done)
 if [ -x bin/renamelocals ] && bin/renamelocals "$scratch/repo" >/dev/null 2>&1; then
   ntotal=$((ntotal+1))
   if bin/gunyucheck -property "$id" -tier quick -verif "$scratch/verif" -repo "$scratch/repo" 2>/dev/null | grep -q "^VIOLATION property=$id"; then
